@@ -80,6 +80,7 @@ type CertOpt struct {
 	SKI        []byte // override
 	CDP        []string
 	OCSP       []string
+	IssuerURL  []string // authorityInfoAccess caIssuers
 	NotBefore, NotAfter time.Time
 	ExtraExt   []pkix.Extension
 }
@@ -125,6 +126,7 @@ func Issue(parent *Ident, o CertOpt) *Ident {
 		BasicConstraintsValid: !o.NoBC,
 		CRLDistributionPoints: o.CDP,
 		OCSPServer:            o.OCSP,
+		IssuingCertificateURL: o.IssuerURL,
 		ExtKeyUsage:           o.ExtKeyUsage,
 		ExtraExtensions:       o.ExtraExt,
 	}
